@@ -95,6 +95,8 @@ let functions : (string * (val0 -> val0)) list = [
   ("claim", claim_run);
   ("reg", reg_run);
   ("oracle", oracle_run);
+  ("conn", conn_run);
+  ("cmd", cmd_run);
 ]
 
 (* monitors: (property, suite) -> case -> implementation output -> list of violations *)
@@ -114,6 +116,8 @@ let monitors : ((string * string) * (val0 -> val0 -> val0)) list = [
   (("C16", "reg"), mon_C16);
   (("C17", "reg"), mon_C17);
   (("C18", "oracle"), mon_C18);
+  (("C20", "conn"), mon_C20_conn);
+  (("C20", "cmd"), mon_C20_cmd);
 ]
 
 let first_diff (a : val0) (b : val0) : int =
